@@ -80,8 +80,8 @@ class C11(core.Property):
     lean_files = ["HappyModel/C11/*.lean", "HappyProofs/C11/*.lean", "HappyModel/Proto.lean", "Driver/C11.lean"]
     theorems = []
     variants = ["repaired"]
-    quick_cases = 260
-    thorough_cases = 9000
+    quick_cases = 400
+    thorough_cases = 30000
     case_timeout_s = 30
     search_budget = {"quick": 150, "thorough": 2000}
     rule = ("family lat: 3–5 RaftNodes, 1.2–3 s of simulated time, heartbeat 60–120 ms, election timeouts 150–400 ms drawn from the case, "
@@ -95,7 +95,7 @@ class C11(core.Property):
         "the recorded delivery order is fed to the model: the engine's own ordering is C01's subject",
     ]
     assumptions = [
-        "crash = CrashNode: events aimed at a crashed node are discarded, its state is kept (the repo has no other notion of a Raft crash)",
+        "crash = CrashNode: events aimed at a crashed node are discarded, its state is kept (the repo has no other notion of a Raft crash); overlapping crash windows nest, as in /repo since the C06 fix 6aa5e9b",
         "client commands carry a unique id so that 'exactly its command' is decidable",
         "stable family: the timing premise (delays ≤ 5 ms, timeouts ≥ 150 ms, no faults) is established by the generator",
     ]
@@ -103,9 +103,11 @@ class C11(core.Property):
     partial_theorems = {}
 
     def __init__(self):
+        # recorded schedules travel from the forked run_impl workers to model_block through this
+        # directory (model_block only receives the case); it lives as long as this process
         self._dir = tempfile.mkdtemp(prefix="hv-c11-")
-        atexit.register(shutil.rmtree, self._dir, True)
         self._owner = os.getpid()
+        atexit.register(self._cleanup)
         # import the implementation once, in the parent: forked workers inherit the loaded modules
         # (a first import inside 16 workers at once is slow enough to trip the per-case alarm)
         import happysimulator.components.consensus.raft  # noqa: F401
@@ -113,6 +115,10 @@ class C11(core.Property):
         import happysimulator.core.simulation  # noqa: F401
         import happysimulator.faults.schedule  # noqa: F401
         import happysimulator.faults.node_faults  # noqa: F401
+
+    def _cleanup(self):
+        if os.getpid() == self._owner:
+            shutil.rmtree(self._dir, True)
 
     # ------------------------------------------------------------------ generation
     def generate(self, rng: random.Random, i: int, tier: str) -> dict:
@@ -178,7 +184,8 @@ class C11(core.Property):
                                  rng.randrange(3), rng.choice([0, 1, 2, 7]), rng.choice([None, 1, 7])])
                     cid += 1
             else:
-                parts.append([at, at + rng.choice([100, 300, 600, 1000]), sorted(ids[:cut]), sorted(ids[cut:])])
+                parts.append([at, at + rng.choice([100, 300, 600, 1000]), sorted(ids[:cut]), sorted(ids[cut:])]
+                             + ([True] if rng.random() < 0.3 else []))  # one-way cut (a cannot reach b)
         lost = sorted({rng.randrange(0, 400) for _ in range(rng.choice([0, 0, 2, 6]))})
         subs.sort(key=lambda s: (s[0], s[2]))
         return {"family": "lat", "n": n, "dur": dur, "hb": hb, "to": [lo, hi], "draws": draws, "lats": lats,
@@ -580,12 +587,12 @@ class C11(core.Property):
                     return side, [j for j in range(n) if j not in side]
                 return a, b
 
-            for at, heal, a, b in case.get("parts", []):
+            for at, heal, a, b, *asym in case.get("parts", []):
                 holder = {}
 
-                def cut(e, a=a, b=b, h=holder):
+                def cut(e, a=a, b=b, h=holder, asym=bool(asym and asym[0])):
                     ga, gb = groups(a, b)
-                    h["p"] = net.partition([nodes[i] for i in ga], [nodes[i] for i in gb])
+                    h["p"] = net.partition([nodes[i] for i in ga], [nodes[i] for i in gb], asymmetric=asym)
 
                 pre.append(Event.once(time=Instant.from_seconds(at / 1000.0), event_type="hv.part", daemon=True, fn=cut))
                 pre.append(Event.once(time=Instant.from_seconds(heal / 1000.0), event_type="hv.heal", daemon=True,
@@ -687,13 +694,49 @@ class C11(core.Property):
 
 
 THEOREMS: list[str] = [
+    # general forms (quantified over the repair flags they need)
     "HappyModel.C11.election_safety",
-    "HappyModel.C11.election_safety_repaired",
-    "HappyModel.C11.election_safety_current_false",
     "HappyModel.C11.log_matching",
-    "HappyModel.C11.log_matching_repaired",
     "HappyModel.C11.apply_in_order_no_gaps",
+    "HappyModel.C11.apply_from_log",
+    "HappyModel.C11.submit_resolves_own_command",
+    "HappyModel.C11.commit_monotone_partial",
+    "HappyModel.C11.clen_reachable",
+    "HappyModel.C11.state_machine_safety_partial",
+    "HappyModel.C11.leader_completeness_partial",
+    # the repaired code
+    "HappyModel.C11.election_safety_repaired",
+    "HappyModel.C11.log_matching_repaired",
     "HappyModel.C11.apply_in_order_no_gaps_repaired",
+    "HappyModel.C11.apply_from_log_repaired",
+    "HappyModel.C11.submit_resolves_own_command_repaired",
+    "HappyModel.C11.state_machine_safety_partial_repaired",
+    # the pinned code falsifies the property (concrete runs, by `decide`)
+    "HappyModel.C11.election_safety_current_false",
+    "HappyModel.C11.leader_completeness_current_false",
+    "HappyModel.C11.submit_resolves_own_command_current_false",
+]
+C11.partial_theorems = {
+    "HappyModel.C11.leader_completeness_partial":
+        "full statement `leader_completeness_full` (Completeness.lean) is NOT proved. Proved: the commit rule (a leader commits N only "
+        "if N holds an entry of its current term and a quorum of match_index ≥ N). Missing invariant: `match_sound` (an acknowledgement "
+        "counted in term T means the follower's log equalled the leader's up to N in term T) and the election argument that a later "
+        "winner's log contains every quorum-acknowledged entry. Judged on every implementation trace instead (0 violations; d2/d3/fig8 corpus).",
+    "HappyModel.C11.state_machine_safety_partial":
+        "full statement `state_machine_safety_full` NOT proved. Proved: applied commands are committed log entries of the applying node "
+        "(apply_from_log) and, IF no two entries ever shown committed at one index differ (commitAgreeOk, which needs Leader Completeness), "
+        "THEN no two nodes apply different commands at one index.",
+    "HappyModel.C11.commit_monotone_partial":
+        "full statement `commit_monotone_full` NOT proved. Proved per step: commit ≤ len(log) always, and commit_index never decreases "
+        "unless the step delivers an AppendEntries that conflicts with an entry at or below the destination's commit index "
+        "(Log.truncate_from then lowers it). Excluding that case needs Leader Completeness.",
+    "stable_leader_commits":
+        "the bounded-progress clause is not a theorem: it is judged (Spec.stableOk) on the generated fault-free `stable` family only.",
+}
+C11.hypotheses = [
+    "election_safety, log_matching: Variant.keepVote (repair D1: _step_down keeps voted_for within a term)",
+    "submit_resolves_own_command: Variant.dropPending (repair D4) and FreshFutures (each submit call gets its own SimFuture)",
+    "soup never shrinks on delivery: theorems also cover duplicated deliveries, which the real Network never produces",
 ]
 C11.theorems = THEOREMS
 PROPERTY = C11()
